@@ -499,6 +499,33 @@ pub fn restrictions(net: &Net, tier: Tier) -> Vec<Restr> {
             }
         }
     }
+    // the same kind posted twice on one edge in different units, the larger number being the tighter limit (13.2 ft = 4.02 m under
+    // 4.2 m; 19000 lb = 8618 kg under 10 t; 59 ft = 17.98 m under 18.5 m; 49 ft = 14.94 m under 16 m): both rows bind, in
+    // either order in the file; the vehicles sit between the two limits or below both
+    {
+        let twice: [(&str, (f64, &str), (f64, &str)); 4] = [
+            ("maximum_height", (4.2, "meters"), (13.2, "feet")),
+            ("maximum_total_weight", (10.0, "tons"), (19000.0, "pounds")),
+            ("maximum_length", (18.5, "meters"), (59.0, "feet")),
+            ("maximum_trailer_length", (16.0, "meters"), (49.0, "feet")),
+        ];
+        let mut cnt = 0usize;
+        for (ti, (kind, a, b)) in twice.iter().enumerate() {
+            for lax_first in [true, false] {
+                for (vi, v) in [vehicle(13.5, 9000.0, 4), vehicle(13.0, 8000.0, 4)].iter().enumerate() {
+                    cnt += 1;
+                    if tier == Tier::Quick && (cnt + idx) % 4 != 0 {
+                        continue;
+                    }
+                    let e = (ti + vi + idx) % m;
+                    let ra = RawRestriction { edge: e, kind: kind.to_string(), value: a.0, unit: a.1.into() };
+                    let rb = RawRestriction { edge: e, kind: kind.to_string(), value: b.0, unit: b.1.into() };
+                    let rws = if lax_first { vec![ra, rb] } else { vec![rb, ra] };
+                    out.push(Restr { vehicle_rows: rws, vehicle: Some(v.clone()), ..Default::default() });
+                }
+            }
+        }
+    }
     // turn restrictions: every single pair of consecutive edges, and some two-pair lists
     let mut pairs = vec![];
     for a in 0..m {
